@@ -89,6 +89,7 @@ def _strategy(dll):
         "sas": st.sampled_from([[0x30, 0x90, 0x91, 0x92], [0x30, 0x90, 0x91, 0x92], [0x00, 0x90, 0x91, 0x92], [0x30, 0x00, 0x01, 0xFD],
                                 [0xFD, 0x7F, 0x80, 0x00], [0x80, 0xF7, 0xF8, 0x01]]),
         "tx_time": st.sampled_from([0.0, 0.0, 0.0001, 0.0005, 0.002]),
+        "app_timer": st.sampled_from([None, None, None, 0.4, 2.0]),
         "max_cmdt": st.sampled_from([1, 2, 3, 255]),
         "grants": st.lists(st.sampled_from([1, 2, 3, 255]), min_size=1, max_size=3),
         "lat": st.fixed_dictionaries({"S": st.lists(st.sampled_from([0.0002, 0.0005, 0.001, 0.0025]), min_size=1, max_size=2)}),
@@ -176,6 +177,8 @@ class C10:
             s = w.stack("S", dll=p["dll"], max_cmdt=p["max_cmdt"], tx_time=p.get("tx_time", 0.0))
             s.add_ca("s", 0x100, SA_S)
             s.listen_ca("s")
+            if p.get("app_timer"):
+                s.ecu.add_timer(p["app_timer"], lambda cookie: True)  # a cyclic application job on the same ECU
             peers = [RefPeer(w.bus, "P%d" % i, a, fd=fd, grants=p["grants"], reply_lat=p.get("reply_lat", [0.001, 0.003])) for i, a in enumerate(PEERS)]
             seg = 60 if fd else 7
             rt = 2 * 0.0025 + max(p.get("reply_lat", [0.003])) + 0.002 + 2 * p.get("tx_time", 0.0)
